@@ -550,8 +550,13 @@ def main(argv=None):
     if is_root:
         try:
             os.seteuid(UNPRIVILEGED)
-            os.seteuid(0)
-            can_drop = True
+            try:
+                # the unprivileged load must be able to REACH the file: every ancestor of the temp directory has to
+                # be traversable by that uid (a TMPDIR below a 0700 directory is not), otherwise the stream is skipped
+                import tempfile as _tf
+                can_drop = os.access(_tf.gettempdir(), os.R_OK | os.X_OK, effective_ids=True)
+            finally:
+                os.seteuid(0)
         except OSError:
             pass
     fault_wire, fault_expect = [], []
@@ -560,7 +565,7 @@ def main(argv=None):
         ck.count(stream)
         app, fault = opts.get("app", APP), (opts.get("fault") if u is not None else None)
         if fault is not None and fault[0] == "chmod" and is_root and not can_drop:
-            ck.count("read fault by file mode (0200 / 0000) skipped: the harness runs as root and cannot change its effective uid")
+            ck.count("read fault by file mode (0200 / 0000) skipped: the harness runs as root and cannot change its effective uid (or the temp directory is not reachable for the unprivileged uid)")
             fault = None
         replay = {"default_config": d.text, "user_file": None if u is None else u.text, "appname": app,
                   "call": f"XDG_CONFIG_HOME=<fresh dir>; load_config_toml({app!r}, default_config)"
